@@ -80,23 +80,23 @@ func FindMinByKey[K comparable, T constraints.Ordered](mapSlice []map[K]T, key K
 	if len(mapSlice) == 0 {
 		return min, errors.New("empty collection")
 	}
-	if _, ok := mapSlice[0][key]; !ok {
-		return min, errors.New("key not found")
-	}
 
-	if len(mapSlice) > 0 {
-		min = mapSlice[0][key]
-	}
-
+	// The first value found under the key is the one to start from,
+	// whichever map it is in: not every map has to hold the key.
+	found := false
 	for _, m := range mapSlice {
 		mapped := FindByKey(m, func(k K) bool {
 			return k == key
 		})
 		if _, ok := mapped[key]; ok {
-			if mapped[key] < min {
+			if !found || mapped[key] < min {
 				min = mapped[key]
 			}
+			found = true
 		}
+	}
+	if !found {
+		return min, errors.New("key not found")
 	}
 
 	return min, nil
@@ -140,23 +140,23 @@ func FindMaxByKey[K comparable, T constraints.Ordered](mapSlice []map[K]T, key K
 	if len(mapSlice) == 0 {
 		return max, errors.New("empty collection")
 	}
-	if _, ok := mapSlice[0][key]; !ok {
-		return max, errors.New("key not found")
-	}
 
-	if len(mapSlice) > 0 {
-		max = mapSlice[0][key]
-	}
-
+	// The first value found under the key is the one to start from,
+	// whichever map it is in: not every map has to hold the key.
+	found := false
 	for _, m := range mapSlice {
 		mapped := FindByKey(m, func(k K) bool {
 			return k == key
 		})
 		if _, ok := mapped[key]; ok {
-			if mapped[key] > max {
+			if !found || mapped[key] > max {
 				max = mapped[key]
 			}
+			found = true
 		}
+	}
+	if !found {
+		return max, errors.New("key not found")
 	}
 
 	return max, nil
